@@ -28,6 +28,10 @@ from an index":
       clause, a call of a function for which the same holds, a branch on which the clause was found absent, a branch on
       which the statement has a set operation (the cut is the combined result's), or returns an empty vector / declines
       with Ok(None).  A fast path that answers COUNT(*) from the row count, or SELECT without FROM, must still cut;
+ (R9) no result path de-duplicates on its own: with the same machinery as R6, every path to a successful return passes
+      helpers::apply_distinct (the de-duplicator over the whole row set), a callee for which that holds, or a branch on
+      which stmt.distinct is false (directly or through can_use_iterator_execution / is_simple_count_star / the columnar
+      gate); a neighbour-only Vec::dedup behind a sort is not a substitute (SELECT DISTINCT b .. ORDER BY id);
  (R7) NULLS LAST does not depend on the direction: in every comparator of a query's ORDER BY (plain, aggregated, set
       operation) an Ordering::reverse applied to compare_sql_values (which ranks NULL highest) is reached only where both
       operands were tested to be non-NULL; otherwise DESC would return the NULL rows first on that path only;
@@ -127,6 +131,7 @@ def run(ctx):
     _lexicographic_rule(ctx, prog)
     _cut_rule(ctx, prog)
     _complete_rule(ctx, prog)
+    _distinct_rule(ctx, prog)
     _null_direction_rule(ctx, prog)
     _position_rule(ctx, prog)
 
@@ -401,3 +406,21 @@ def _position_rule(ctx, prog):
             ctx.finding(key, f'{f.nice} builds ORDER BY sort keys without deciding whether an item is an integer literal (a position in the select list): ORDER BY 1 is '
                         'evaluated as the constant 1 and the rows of this path come back unsorted', f.loc)
     ctx.floor('C08.R8 ORDER BY key builders', n, 3)
+
+
+def _distinct_rule(ctx, prog):
+    ctx.rule('C08.R9', 'execute_with_ctes and, recursively, every select-executor callee that receives the same stmt and whose rows are returned: no successful return is reachable '
+             'without helpers::apply_distinct, a complete callee, or a branch on which stmt.distinct is false')
+
+    def sat(f, s, g, atoms):
+        out = {i for i, t in f.calls() if (callee_name(t) or '').endswith('select::helpers::apply_distinct')}
+        for b, at in atoms.items():
+            if 'not_distinct' in at:
+                out.add(b)
+        return out
+
+    def describe(cl, f, lines):
+        return (f'{f.nice} has a path to a successful return that serves DISTINCT without helpers::apply_distinct (through lines {lines}): duplicates that are not neighbours '
+                'in the returned order survive (SELECT DISTINCT b FROM t ORDER BY id returns x, y, x)')
+    shared.result_path_rule(ctx, prog, 'C08.R9', {'distinct': sat}, describe,
+                            reviewed={'execute_select_without_from': 'SELECT without FROM yields at most one row: DISTINCT is the identity on it'})
